@@ -36,6 +36,13 @@ package bgv
 //@   trusted slices.Contains reports membership
 //@   ensures iff(result, memb(chainof(s), v))
 
+// ---- the auxiliary basis of the scale-invariant (BFV-style) multiplication is coprime to Q (finding F72: with a
+// ---- 61-bit prime in Q the basis contained that prime and the basis extension Q <-> QMul was undefined).  The
+// ---- helper that draws the primes is a leaf here: a typed-AST contract for it (no prime handed out is one of
+// ---- the given moduli) needs the frame of the prime generator, which is not under contract (tried, 13.39)
+//@ afunc nextPrimesNotIn
+//@   trusted at the abstract level: a list of primes or an error; nothing assumed
+
 //@ afunc NewParameters
 //@   property C19
 //@   loopabs
